@@ -74,6 +74,9 @@ type Parser struct {
 	// prevToken holds the previous token, which we already processed.
 	prevToken token.Token
 
+	// beforePrevToken holds the token that came before prevToken.
+	beforePrevToken token.Token
+
 	// curToken holds the current token from the lexer.
 	curToken token.Token
 
@@ -197,6 +200,7 @@ func (p *Parser) nextToken() error {
 		return p.err
 	}
 	var err error
+	p.beforePrevToken = p.prevToken
 	p.prevToken = p.curToken
 	p.curToken = p.peekToken
 	p.peekToken, err = p.l.Next()
@@ -989,6 +993,12 @@ func (p *Parser) parseNewline() ast.Node {
 }
 
 func (p *Parser) parsePostfix() ast.Statement {
+	// The operand is the token before the operator: it has to be a variable of
+	// its own, not the last part of a larger expression such as "m.y" or "l[0]"
+	if p.prevToken.Type != token.IDENT || p.beforePrevToken.Type == token.PERIOD {
+		p.setTokenError(p.curToken, "invalid syntax (%s applies to a variable only)", p.curToken.Literal)
+		return nil
+	}
 	return ast.NewPostfix(p.prevToken, p.curToken.Literal)
 }
 
